@@ -76,7 +76,7 @@ fn reference(d: &D, form: KeyForm) -> (Vec<u8>, Option<Vec<u8>>, Option<Vec<u8>>
             (p2sh(&redeem), Some(ws.clone()), Some(ws), push(&redeem))
         }
         D::Tr(ik, leaves) => {
-            let ls: Vec<(u8, Vec<u8>)> = leaves.iter().map(|(dp, t)| (*dp, enc(t, KeyForm::XOnly))).collect();
+            let ls: Vec<(u8, Vec<u8>)> = leaves.iter().map(|(dp, t)| (*dp, encode_ref(t, &RefEnc { form: KeyForm::XOnly }))).collect();
             let mut x = [0u8; 32];
             x.copy_from_slice(&key(ik).x32());
             let (q, _) = ref_taproot_output(&x, ref_merkle_root(&ls));
@@ -164,6 +164,27 @@ fn accessor_checks(rep: &Report, d: &D, form: KeyForm, cen: &mut Census) {
             if a != b {
                 viol("type-script_code", format!("ecdsa_sighash_script_code() {} vs reference {}", hex(a), hex(b)));
             }
+        }
+        // the taproot accessors of the descriptor agree with the model
+        if let (D::Tr(ik, leaves), DD::Tr(_)) = (d, &c.desc) {
+            let env = crate::keys::DefEnv { form, with_origin: true };
+            use crate::ast::Env;
+            let want: DefiniteDescriptorKey = env.pk(ik);
+            if c.desc.internal_key() != Some(&want) {
+                viol("internal_key", "internal_key() is not the descriptor's internal key".into());
+            }
+            if c.desc.tap_tree().is_some() != !leaves.is_empty() {
+                viol("tap_tree", format!("tap_tree().is_some() = {} for {} leaves", c.desc.tap_tree().is_some(), leaves.len()));
+            }
+            let got: Vec<(u8, Vec<u8>)> = c.desc.tap_tree_iter().map(|l| (l.depth(), l.miniscript().encode().into_bytes())).collect();
+            let exp: Vec<(u8, Vec<u8>)> = leaves.iter().map(|(dp, t)| (*dp, encode_ref(t, &RefEnc { form: KeyForm::XOnly }))).collect();
+            if got != exp {
+                viol("tap_tree_iter", format!("tap_tree_iter yields {} leaves with other depths / scripts than the {} described", got.len(), exp.len()));
+            } else {
+                bump(cen, "tap_accessors_ok");
+            }
+        } else if c.desc.internal_key().is_some() || c.desc.tap_tree().is_some() || c.desc.tap_tree_iter().next().is_some() {
+            viol("tap-accessors-on-non-taproot", "a taproot accessor returns something for a non-taproot descriptor".into());
         }
         // alternative constructors build the same descriptor
         let alt: Option<Result<DD<DefiniteDescriptorKey>, miniscript::Error>> = match &c.desc {
@@ -478,6 +499,28 @@ fn derivation_checks(rep: &Report, cen: &mut Census) {
                             continue;
                         }
                     };
+                    // the multipath predicates and the per-key split say the same as the text
+                    {
+                        use miniscript::ForEachKey;
+                        if !desc.is_multipath() {
+                            rep.violation(Violation { key: format!("C16|is_multipath|{}", ds), class: "is_multipath-false".into(), what: "Descriptor::is_multipath() is false for a descriptor with <a;b> steps".into(), case: json!({"descriptor": ds}) });
+                        }
+                        desc.for_each_key(|k| {
+                            let text = k.to_string();
+                            let has = text.contains('<');
+                            let singles = k.clone().into_single_keys();
+                            let ok = k.is_multipath() == has && singles.len() == if has { n_alt } else { 1 } && singles.iter().enumerate().all(|(j, sk)| {
+                                let (m, a) = if text.contains(&mp) { (&mp, &alts) } else { (k2_mp, k2_alts) };
+                                !has && sk.to_string() == text || has && sk.to_string() == text.replace(m.as_str(), &a[j].to_string())
+                            });
+                            if !ok {
+                                rep.violation(Violation { key: format!("C16|into_single_keys|{}|{}", ds, text), class: "into_single_keys-differs".into(), what: format!("is_multipath = {}, into_single_keys = {:?}", k.is_multipath(), singles.iter().map(|x| x.to_string()).collect::<Vec<_>>()), case: json!({"descriptor": ds, "key": text}) });
+                            } else {
+                                bump(cen, "single_keys_ok");
+                            }
+                            true
+                        });
+                    }
                     match guard(|| desc.clone().into_single_descriptors()) {
                         Ok(Ok(v)) => {
                             if v.len() != n_alt {
@@ -764,6 +807,17 @@ pub fn run(tier: Tier) -> i32 {
         models.push((D::ShWpkh(k.into()), KeyForm::Compressed));
         models.push((D::Tr(k.into(), vec![]), KeyForm::Compressed));
         models.push((D::Tr(k.into(), vec![]), KeyForm::XOnly));
+    }
+    // sorted multisigs of every small (k, n): their dedicated constructors are compared below
+    for nn in 1..=4usize {
+        for k in 1..=nn {
+            let ks: Vec<String> = (1..=nn).map(|i| format!("K{}", i)).collect();
+            models.push((D::Wsh(T::SortedMulti(k, ks.clone())), KeyForm::Compressed));
+            models.push((D::ShWsh(T::SortedMulti(k, ks.clone())), KeyForm::Compressed));
+            models.push((D::Sh(T::SortedMulti(k, ks.clone())), KeyForm::Compressed));
+            models.push((D::Sh(T::SortedMulti(k, ks.clone())), KeyForm::Uncompressed));
+            models.push((D::Sh(T::SortedMulti(k, ks)), KeyForm::Mixed));
+        }
     }
     for t in b_terms(&u.segwit, n) {
         models.push((D::Wsh(t.clone()), KeyForm::Compressed));
